@@ -49,7 +49,7 @@ type c09Load struct {
 	out        string
 	val        int
 	superseded bool
-	laterWrite bool // an explicit write call to the key began after this load had registered
+	laterWrite bool     // an explicit write call to the key began after this load had registered
 	installed  bool     // installation step finished (or skipped)
 	writeInCb  bool     // a write call to the key was blocked inside its own callback when this load registered
 	igate      *c09Gate // the load.beforeInstall gate this load is (or was) parked at
